@@ -183,9 +183,13 @@ class RunInfo:
                 k: tuple(v) if isinstance(v, list) else v
                 for k, v in data["internal_shapes"].items()
             }
-        data["run_folder"] = Path(data["run_folder"])
-        data["inputs"] = {k: load(Path(v)) for k, v in data.pop("input_paths").items()}
-        data["defaults"] = load(Path(data.pop("defaults_path")))
+        # The recorded paths may be relative to the working directory of the run that wrote them
+        # (or the folder may have been moved): everything is read from the folder that was asked for.
+        run_folder = Path(run_folder)
+        data["run_folder"] = run_folder
+        data["inputs"] = {k: load(_input_path(k, run_folder)) for k in data.pop("input_paths")}
+        del data["defaults_path"]
+        data["defaults"] = load(_defaults_path(run_folder))
         return cls(**data)
 
     @staticmethod
